@@ -119,6 +119,11 @@ func runUnits(cfg *Config, ld *Loaded, db *SpecDB, keys []string) []*UnitResult 
 				}
 				u.Run()
 			}()
+			if cfg.Verbose {
+				for l, names := range u.inferred {
+					fmt.Printf("  inferred %s %s: %s\n", k, l, strings.Join(names, " ; "))
+				}
+			}
 			res.Obls = u.obls
 			res.Errs = append(res.Errs, u.errs...)
 			res.Paths = u.paths
@@ -344,6 +349,16 @@ func report(cfg *Config, ld *Loaded, db *SpecDB, results []*UnitResult, loadS, g
 				fmt.Printf("  ok   %s (%d paths, %.2fs)\n", name, s.Instances, s.Seconds)
 			}
 			continue
+		}
+		if s.Kind == "frame" {
+			// a write to a struct field that no contract mentions cannot invalidate any contract-based reasoning:
+			// reported as a note, not as a violation (guards against alarms on harmless edits)
+			ff := s.Failed[0].FrameField
+			if ff != "" && !db.mentionsWord(ff) {
+				fmt.Printf("NOTE: %s: write outside the modifies clause to field %q, which no contract mentions (ignored)\n", name, ff)
+				discharged++
+				continue
+			}
 		}
 		if kf := known.match(cfg.Prop, name); kf != nil {
 			knownHits = append(knownHits, fmt.Sprintf("KNOWN-FINDING: property=%s %s — %s", cfg.Prop, name, kf.What))
